@@ -132,13 +132,14 @@ func (z *Solver) mk(t *Term) C.Z3_ast {
 		}
 		return C.Z3_mk_unsigned_int64(c, C.uint64_t(t.C), z.sort(w))
 	case OVar:
-		if v, ok := z.vars[t.Name]; ok {
+		key := fmt.Sprintf("%s/%d", t.Name, w)
+		if v, ok := z.vars[key]; ok {
 			r = v
 		} else {
-			cs := C.CString(t.Name)
+			cs := C.CString(key)
 			r = C.Z3_mk_const(c, C.Z3_mk_string_symbol(c, cs), z.sort(w))
 			C.free(unsafe.Pointer(cs))
-			z.vars[t.Name] = r
+			z.vars[key] = r
 		}
 	case OBNot:
 		r = C.Z3_mk_not(c, z.mk(t.A[0]))
@@ -222,6 +223,9 @@ func (z *Solver) mk(t *Term) C.Z3_ast {
 		default:
 			panic(fmt.Sprintf("mk: op %d", t.Op))
 		}
+	}
+	if r == nil {
+		panic(fmt.Sprintf("z3: cannot build %s/%d over %v", opNames[t.Op], t.W, t.A))
 	}
 	t.zGen, t.zAst = z.gen, uintptr(unsafe.Pointer(r))
 	return r
